@@ -25,5 +25,8 @@ run_one() {
 export -f run_one; export V R TIER
 ls -d $V/seeded/$GLOB/ | xargs -P $J -I{} bash -c 'run_one {}' | tee /tmp/seed_rerun.$$ 
 grep -vq DETECTED /tmp/seed_rerun.$$ && bad=1
-sort /tmp/seed_rerun.$$ > $V/seeded/RERUN_$TIER.txt; rm -f /tmp/seed_rerun.$$
+# merge into the table (entries of names not re-run are kept)
+touch $V/seeded/RERUN_$TIER.txt
+awk 'NR==FNR{seen[$1]=1; print; next} !($1 in seen)' /tmp/seed_rerun.$$ $V/seeded/RERUN_$TIER.txt | sort > /tmp/seed_rerun.$$.m
+mv /tmp/seed_rerun.$$.m $V/seeded/RERUN_$TIER.txt; rm -f /tmp/seed_rerun.$$
 exit $bad
